@@ -12,13 +12,15 @@ unmutated program, so an error of this file shows up as a failed precondition, n
 
 Library of every program (L):
 
-    open class A          class B : A()        class G<T>(val f: T)         class H<T>()
+    open class A          class B : A()        class G<T>(val f: T) { fun self(): G<T> = G<T>(f) }
+    class H<U>() { fun self(): H<U> = H<U>() }
     fun <T> foo(): T      fun <T> id(x: T): T   fun <T> mk(x: T): G<T>       fun <T> mkh(): H<T>
 
 Body:   fun bar(): R { [val|var] x: D = E ; [stmt2] ; result }
 
     E      atoms, foo<t>(), id<t>(atom), G<t>(atom), H<t>(), mk<t>(atom), mkh<t>(), id<G<t>>(G<t>(atom)),
-           G<G<t>>(G<t>(atom)), if (true) e1 else e2, G<t>(foo<t>()), id<t>(foo<t>())      t in {A, B, String}
+           G<G<t>>(G<t>(atom)), if (true) e1 else e2, G<t>(foo<t>()), id<t>(foo<t>()),
+           G<t>(atom).self(), H<t>().self()  (constructor call in receiver position)       t in {A, B, String}
     D      the type of E, or a proper supertype of it (A for B, the top type otherwise)
     stmt2  nothing | x = atom (x mutable) | val y: D = x | val y: D = id<D>(x)
     result x | id<D>(x) | "s"
@@ -46,6 +48,8 @@ def _skeletons():
         E.append((('GG', t), ('G', ('G', t))))
         E.append((('Gfoo', t), ('G', t)))
         E.append((('idfoo', t), t))
+        E.append((('Gself', t), ('G', t)))
+        E.append((('Hself', t), ('H', t)))
         for s in below[t]:
             E.append((('id', t, s), t))
             E.append((('G', t, s), ('G', t)))
@@ -69,6 +73,24 @@ def _skeletons():
 
 def size():
     return len(_skeletons())
+
+
+def core():
+    """indices of the reduced family (no second statement, result x): one program per initializer x declared
+    type x mutability -- used by the checks whose oracle is expensive per execution"""
+    return [i for i, sk in enumerate(_skeletons()) if sk['stmt2'] == 'none' and sk['result'] == 'x']
+
+
+def mini():
+    """one program per initializer: immutable x declared with the initializer's own type"""
+    sk = _skeletons()
+    return [i for i in core() if not sk[i]['mutable'] and sk[i]['d'] == sk[i]['te']]
+
+
+def family_configs(langs, which='all', switches=(0, 0, 0, 0)):
+    from mc.pipeline import Config
+    idx = range(size()) if which == 'all' else core() if which == 'core' else mini()
+    return [Config(l, switches, 'F:%d' % i) for l in langs for i in idx]
 
 
 def describe(i):
@@ -101,11 +123,19 @@ def build(lang, i):
     clsH = ast.ClassDeclaration('H', [], ast.ClassDeclaration.REGULAR, fields=[], functions=[], is_final=True,
                                 type_parameters=[hT])
     conG, conH = clsG.get_type(), clsH.get_type()
+    gself = ast.FunctionDeclaration('self', [], conG.new([gT]), ast.Block([ast.New(conG.new([gT]), [ast.Variable('f')])]),
+                                    ast.FunctionDeclaration.CLASS_METHOD)
+    clsG.functions.append(gself)
+    hself = ast.FunctionDeclaration('self', [], conH.new([hT]), ast.Block([ast.New(conH.new([hT]), [])]),
+                                    ast.FunctionDeclaration.CLASS_METHOD)
+    clsH.functions.append(hself)
     for cl in (clsA, clsB, clsG, clsH):
         c.add_class(G0, cl.name, cl)
     c.add_var(G0 + ('G',), gf.name, gf)
     c.add_type(G0 + ('G',), gT.name, gT)
     c.add_type(G0 + ('H',), hT.name, hT)
+    c.add_func(G0 + ('G',), 'self', gself)
+    c.add_func(G0 + ('H',), 'self', hself)
 
     def fn(name, tpar, params, ret, body):
         f = ast.FunctionDeclaration(name, params, ret, body, ast.FunctionDeclaration.FUNCTION,
@@ -161,6 +191,10 @@ def build(lang, i):
             return ast.New(ty(('G', e[1])), [call('foo', [ty(e[1])], [])])
         if k == 'idfoo':
             return call('id', [ty(e[1])], [call('foo', [ty(e[1])], [])])
+        if k == 'Gself':
+            return ast.FunctionCall('self', [], receiver=ast.New(ty(('G', e[1])), [atom(e[1])]))
+        if k == 'Hself':
+            return ast.FunctionCall('self', [], receiver=ast.New(ty(('H', e[1])), []))
         if k == 'id':
             return call('id', [ty(e[1])], [atom(e[2])])
         if k == 'G':
